@@ -342,6 +342,10 @@ def coerce(v, ty):
         # a value the slice does not track: any value fits, nothing is remembered about it
         if isinstance(v, Val) and v.ty == ty:
             return v
+        if isinstance(v, Val) and len(v.terms) == 1 and not isinstance(v.ty, TNone):
+            # the same value is the same object: an uninterpreted embedding (nothing else is remembered about it)
+            srt = v.terms[0].sort()
+            return Val(ty, [z3.Function("box!%s!Any" % srt, srt, ty.comps()[0])(v.terms[0])])
         return fresh(ty, "any")
     if isinstance(v, PyList):
         if isinstance(ty, TSeq):
@@ -398,6 +402,9 @@ def coerce(v, ty):
         return mk_some(coerce(v, ty.inner))
     if isinstance(ty, TRef) and isinstance(v.ty, TRef):
         return v          # keep the more specific static class (view aliases depend on it)
+    if isinstance(ty, TOpaque) and ty.sort_name == "Data" and isinstance(v.ty, TRef):
+        srt = v.terms[0].sort()      # an object used as a data value: uninterpreted embedding
+        return Val(ty, [z3.Function("box!%s!Data" % srt, srt, ty.comps()[0])(v.terms[0])])
     if isinstance(ty, TLSet) and isinstance(v.ty, TSet):
         return Val(ty, [v.t, z3.BoolVal(True)])
     if isinstance(ty, TBytes) and isinstance(v.ty, TStr):
